@@ -110,6 +110,12 @@ type Frame struct {
 	LoopSeen  map[*ssa.BasicBlock]bool
 	Con       *Contract // contract of Fn if it is the function under verification
 	IsRoot    bool
+	Names     map[string]namedVal // source-level locals seen on this path (from DebugRef)
+}
+
+type namedVal struct {
+	V Val
+	T types.Type
 }
 
 type State struct {
@@ -126,6 +132,10 @@ type State struct {
 	CurArgs []SV          // arguments of the root-frame call being executed
 	CurRet  *SV
 	seen    map[string]bool // assertions already present (deduplication)
+	// Epoch counts the blocking points (yields) passed on this path: a heap
+	// array first read after a yield is not the initial one (other steps ran)
+	Epoch    int
+	initDecl map[string]bool // initial heap arrays already declared
 }
 
 func (s *State) top() *Frame { return s.Stack[len(s.Stack)-1] }
@@ -139,6 +149,13 @@ func (s *State) clone() *State {
 		Ghost:   make(map[string]Term, len(s.Ghost)),
 		Path:    append([]string(nil), s.Path...),
 		CallCount: make(map[string]int, len(s.CallCount)),
+		Epoch:     s.Epoch,
+	}
+	if s.initDecl != nil {
+		n.initDecl = make(map[string]bool, len(s.initDecl))
+		for k, v := range s.initDecl {
+			n.initDecl[k] = v
+		}
 	}
 	for k, v := range s.Heap {
 		n.Heap[k] = v
@@ -165,6 +182,12 @@ func (s *State) clone() *State {
 		}
 		nf.Defers = append([]*ssa.Defer(nil), f.Defers...)
 		nf.DeferArgs = append([][]Val(nil), f.DeferArgs...)
+		if f.Names != nil {
+			nf.Names = make(map[string]namedVal, len(f.Names))
+			for k, v := range f.Names {
+				nf.Names[k] = v
+			}
+		}
 		nf.LoopSeen = make(map[*ssa.BasicBlock]bool, len(f.LoopSeen))
 		for k, v := range f.LoopSeen {
 			nf.LoopSeen[k] = v
@@ -271,8 +294,29 @@ func (s *State) heapCur(name string, sort Sort) Term {
 	if t, ok := s.Heap[name]; ok {
 		return t
 	}
-	t := s.declare(name, sort)
+	if s.Epoch > 0 {
+		// first read after a blocking point: what other steps left there
+		s.declInit(name, sort)
+		t := s.declare(fmt.Sprintf("|%s!y%d|", strings.Trim(name, "|"), s.Epoch), sort)
+		s.Heap[name] = t
+		return t
+	}
+	t := s.declInit(name, sort)
 	s.Heap[name] = t
+	return t
+}
+
+// declInit declares the initial version of a heap array once.
+func (s *State) declInit(name string, sort Sort) Term {
+	if s.initDecl == nil {
+		s.initDecl = map[string]bool{}
+	}
+	t := Term{name, sort}
+	if s.initDecl[name] {
+		return t
+	}
+	s.initDecl[name] = true
+	s.declare(name, sort)
 	s.closedHeapAxiom(t)
 	return t
 }
@@ -306,8 +350,14 @@ func (s *State) closedHeapAxiom(h Term) {
 }
 
 func (s *State) heapInit(name string, sort Sort) Term {
-	s.heapCur(name, sort) // ensure declared
-	return Term{name, sort}
+	if s.Epoch == 0 {
+		s.heapCur(name, sort) // ensure declared
+		return Term{name, sort}
+	}
+	if _, ok := s.Heap[name]; ok && s.initDecl[name] {
+		return Term{name, sort}
+	}
+	return s.declInit(name, sort)
 }
 
 func (s *State) heapSet(name string, t Term) { s.Heap[name] = t }
